@@ -72,11 +72,17 @@ func nodesOf(p *workflow.Plan) []node {
 	return out
 }
 
-// latest is the harness's own "most recent recorded start/end of any object" (zero if none).
+// latest is the harness's own "most recent recorded start/end of any object or attempt" (zero if none).
 func latest(p *workflow.Plan) time.Time {
 	var m time.Time
 	for _, n := range nodesOf(p) {
-		for _, t := range []time.Time{n.st.Start, n.st.End} {
+		ts := []time.Time{n.st.Start, n.st.End}
+		if n.act != nil {
+			for _, at := range n.act.Attempts {
+				ts = append(ts, at.Start, at.End)
+			}
+		}
+		for _, t := range ts {
 			if !t.IsZero() && (m.IsZero() || t.After(m)) {
 				m = t
 			}
@@ -479,7 +485,7 @@ func child(index int, resPath string) {
 		}
 		// objects synthetically set Running: in plans that will not be resumed by a correct implementation
 		// (not Running, or clearly stale), so that every kind of object is met in that state
-		staleKind := strings.HasPrefix(ak, "stale") || ak == "zero-times" || ak == "attempt-recent"
+		staleKind := strings.HasPrefix(ak, "stale") || ak == "zero-times"
 		if (!running || staleKind) && pr.Chance(0.5) {
 			k := pr.Range(1, 3)
 			for i := 0; i < k; i++ {
@@ -497,11 +503,16 @@ func child(index int, resPath string) {
 		if ak == "zero-times" {
 			for _, n := range ns {
 				n.st.Start, n.st.End = time.Time{}, time.Time{}
+				if n.act != nil {
+					for _, at := range n.act.Attempts {
+						at.Start, at.End = time.Time{}, time.Time{}
+					}
+				}
 			}
 			b.desc.Witness = "none"
 		} else if l := latest(p); !l.IsZero() {
 			target := tCraft.Add(-age)
-			if pr.Chance(0.5) {
+			if ak != "attempt-recent" && pr.Chance(0.5) {
 				// plain shift: the natural latest time becomes the target
 				shiftTimes(p, target.Sub(l))
 				b.desc.Witness = "natural"
@@ -520,6 +531,49 @@ func child(index int, resPath string) {
 						names = append(names, n.kind+".End")
 					}
 				}
+				attFields := func() (fs []*time.Time, nm []string) {
+					for _, n := range ns {
+						if n.act == nil {
+							continue
+						}
+						for _, at := range n.act.Attempts {
+							if !at.Start.IsZero() {
+								fs = append(fs, &at.Start)
+								nm = append(nm, "attempt.Start")
+							}
+							if !at.End.IsZero() {
+								fs = append(fs, &at.End)
+								nm = append(nm, "attempt.End")
+							}
+						}
+					}
+					return
+				}
+				af, an := attFields()
+				if ak == "attempt-recent" {
+					// the only recent record is the start or end of an attempt (an action being retried):
+					// every State is far older than maxAge, the attempt is 1 ms old
+					target = tCraft.Add(-time.Millisecond)
+					if len(af) == 0 {
+						var acts []*workflow.Action
+						for _, n := range ns {
+							if n.act != nil && n.st.Status == workflow.Running {
+								acts = append(acts, n.act)
+							}
+						}
+						if len(acts) > 0 {
+							a := acts[pr.Intn(len(acts))]
+							old := a.State.Start
+							a.Attempts = append(a.Attempts, &workflow.Attempt{Err: &plugins.Error{Code: 1, Message: "transient"}, Start: old, End: old.Add(time.Millisecond)})
+							af, an = attFields()
+						}
+					}
+					if len(af) > 0 {
+						fields, names = af, an
+					}
+				} else {
+					fields, names = append(fields, af...), append(names, an...)
+				}
 				w := pr.Intn(len(fields))
 				if pr.Chance(0.5) {
 					// prefer an End field when there is one (Start fields are far more numerous in Running images)
@@ -535,19 +589,6 @@ func child(index int, resPath string) {
 				}
 				*fields[w] = target
 				b.desc.Witness = names[w]
-			}
-			if ak == "attempt-recent" {
-				// the only recent record is the end of an attempt
-				var acts []*workflow.Action
-				for _, n := range ns {
-					if n.act != nil && n.st.Status != workflow.NotStarted {
-						acts = append(acts, n.act)
-					}
-				}
-				if len(acts) > 0 {
-					a := acts[pr.Intn(len(acts))]
-					a.Attempts = append(a.Attempts, &workflow.Attempt{Err: &plugins.Error{Code: 1, Message: "transient"}, Start: tCraft.Add(-2 * time.Millisecond), End: tCraft.Add(-time.Millisecond)})
-				}
 			}
 		} else {
 			b.desc.Witness = "none"
@@ -616,6 +657,11 @@ func child(index int, resPath string) {
 	}
 	if !recovery {
 		opts = append(opts, coercion.WithNoRecovery())
+	}
+	optOrder := "age,norecovery"
+	if len(opts) == 2 && r.Chance(0.5) {
+		opts[0], opts[1] = opts[1], opts[0]
+		optOrder = "norecovery,age"
 	}
 	t0 := time.Now()
 	ws2, err := coercion.New(ctx, set.Reg, lv, opts...)
@@ -694,7 +740,7 @@ func child(index int, resPath string) {
 		Coq:        term,
 		Nontrivial: nontrivial,
 		Hash:       core.Hash(hashParts...),
-		Dist:       map[string]any{"plans": len(plansB), "recovery": recovery, "max_age": mk.Name, "file_backed": fileBacked, "statuses": statuses, "new_ms": t1.Sub(t0).Milliseconds(), "slack_ms": t1.Sub(tCraft).Milliseconds(), "stray_writes": stray},
+		Dist:       map[string]any{"plans": len(plansB), "recovery": recovery, "max_age": mk.Name, "file_backed": fileBacked, "statuses": statuses, "new_ms": t1.Sub(t0).Milliseconds(), "slack_ms": t1.Sub(tCraft).Milliseconds(), "stray_writes": stray, "option_order": optOrder},
 		Input:      map[string]any{"seed": core.Seed(), "index": index, "max_age_ns": int64(mk.D), "max_age_option_passed": mk.Pass, "recovery": recovery, "file_backed": fileBacked},
 		Observed:   descs,
 	}}
